@@ -4,12 +4,16 @@ import common, fns, sweeps
 from common import canon
 
 PROP = 'C02'
-LEAN_MODULES = ['XyzProofs.Props.C02', 'XyzProofs.Props.C02ParseCases']
+LEAN_MODULES = ['XyzProofs.Props.C02', 'XyzProofs.Props.C02ParseCases', 'XyzProofs.Refine.Core']
 THEOREMS = ['Core.c02_calls_exactly_requested', 'Core.c02_slot', 'Core.c02_coords_union', 'Core.c02_overlap_rejected',
             'Value.c02_placeholder_shape', 'Value.c02_placeholder_none_iff', 'Core.sortedSet_spec',
             'ParseCases.c02_pc_dicts', 'ParseCases.c02_pc_tuples', 'ParseCases.c02_pc_bare', 'ParseCases.c02_pc_needs_fn_args',
-            'ParseCases.c02_pc_empty', 'ParseCases.dictZip_nodup']
-ANCHORS = ['casesWrapBare']
+            'ParseCases.c02_pc_empty', 'ParseCases.dictZip_nodup',
+            # the hand-written model is the source as translated on this run (harness/anchors_core.py, pyloop2lean.py)
+            'CoreRefine.coreEnum_refines', 'CoreRefine.coreRun_runLinear', 'CoreRefine.unflatten_refines',
+            'CoreRefine.coreProcess_cases', 'CoreRefine.coreGlue_holds', 'CoreRefine.translated_eq_core',
+            'CoreRefine.c02_slot_src']
+ANCHORS = ['casesWrapBare', 'coreEnum', 'coreRun', 'unflatten', 'coreProcess', 'coreGlue']
 RULE = ("1-4 case arguments, 1-8 distinct cases (dict spelling through combo_runner(cases=...), tuple spelling through "
         "case_runner), optional sub-grid on 0-2 further arguments, result kinds scalar num/bool/str, tuples (incl. str/bool "
         "components), nested lists and numpy arrays of float / int / bool / str entries (1-d to 3-d, alone or as tuple "
